@@ -61,15 +61,21 @@ func filterRelevantUpdates(proxy *model.Proxy, req *model.PushRequest) *model.Pu
 	}
 
 	// If the proxy's service updated, need push for it.
-	if len(proxy.ServiceTargets) > 0 && req.ConfigsUpdated != nil {
-		for _, svc := range proxy.ServiceTargets {
-			key := model.ConfigKey{
-				Kind:      kind.ServiceEntry,
-				Name:      string(svc.Service.Hostname),
-				Namespace: svc.Service.Attributes.Namespace,
-			}
-			if req.ConfigsUpdated.Contains(key) {
-				relevantUpdates.Insert(key)
+	// The previous targets count too: the update may be the very one that made the proxy stop being a target.
+	if len(proxy.ServiceTargets)+len(proxy.PrevServiceTargets) > 0 && req.ConfigsUpdated != nil {
+		for _, targets := range [][]model.ServiceTarget{proxy.ServiceTargets, proxy.PrevServiceTargets} {
+			for _, svc := range targets {
+				if svc.Service == nil {
+					continue
+				}
+				key := model.ConfigKey{
+					Kind:      kind.ServiceEntry,
+					Name:      string(svc.Service.Hostname),
+					Namespace: svc.Service.Attributes.Namespace,
+				}
+				if req.ConfigsUpdated.Contains(key) {
+					relevantUpdates.Insert(key)
+				}
 			}
 		}
 	}
